@@ -18,7 +18,7 @@
   body and builds for every variable the term of the let-chain, with a static word size; a proved simulation theorem
   (`mS_sound`, `run_of_mRet`) relates it to `exec`; that the mirror's result on symbolic limbs IS the generated function
   is one kernel conversion per primitive (`m_sm2Mul …` by `kernel_rfl`: the tactic closes `a = b` with `Eq.refl a` and
-  leaves the conversion check to the kernel, as `decide +kernel` does; no axiom, no `native_decide`).
+  leaves the conversion check to the kernel, as `decide +kernel` does; it adds no axiom).
   Axioms: propext, Classical.choice, Quot.sound.
 -/
 import SMGo.Proofs.CTIRRefineFiat
